@@ -156,6 +156,36 @@ theorem sccs_of_aligned_eigenbases (eigD eigV : Mat3) (hV : IsOrtho eigV)
     sccs eigD eigV = eigD :=
   sccs_aligned eigD eigV hV h
 
+/-- **orthorhombic with distinct principal axes ⇒ monoclinic and triclinic parts vanish** in a
+candidate frame whose axes are ± the principal axes in any order (which is what
+`sccs_of_aligned_eigenbases` delivers when LAPACK returns the principal axes): `M0` has the
+orthorhombic Voigt pattern, the tensor is given in a frame rotated by `R`, the candidate frame
+satisfies `Pᵀ = S Rᵀ` with `S` a signed permutation matrix -/
+theorem orthorhombic_mono_tric_vanish (M0 : Mat6) (hS : IsSymm6 M0) (hpat : OrthoPat M0) (R : Mat3)
+    (hR : IsOrtho R) (π : Fin 3 → Fin 3) (hπ : Function.Injective π) (ε : Fin 3 → ℝ) (P : Mat3)
+    (hP : tr P = mmul (sperm π ε) (tr R)) (iso : Vec21) (nv : ℝ) :
+    (decompIn (voigtToTensor (rot6 R M0)) iso nv P).tric = 0 ∧
+    (decompIn (voigtToTensor (rot6 R M0)) iso nv P).mono = 0 :=
+  orthorhombic_candidate_frame M0 hS hpat R hR π hπ ε P hP iso nv
+
+/-- full statement (kept visible): for `M = rot6 R M0` as above with distinct eigenvalues of `d_ij`
+and `v_ij`, the dictionary returned by `elasticity_components` has zero monoclinic and triclinic
+percentages, `hex² + tetr² + ortho² = anisotropy²`, and the hexagonal axis is `± R e_k`.
+**Partial**: proved are the three links above (`sccs_of_aligned_eigenbases`,
+`orthorhombic_mono_tric_vanish`, `percentages_pythagoras`); missing is the runtime link that
+`la.eigh` applied to `R D Rᵀ` returns `± R e_k` (an `IsEigen` specification plus simplicity of the
+eigenvalues) and the comparison of the three candidate distances.  Validated on the implementation
+(keys `ortho:*`, `frame:*`). The composition under an explicit eigen-specification: -/
+theorem orthorhombic_decomposition_partial (M0 : Mat6) (hS : IsSymm6 M0) (hpat : OrthoPat M0) (R : Mat3)
+    (hR : IsOrtho R) (eigD eigV : Mat3) (hV : IsOrtho eigV)
+    (hal : ∀ i, ∃ (js : Fin 3) (σ : ℝ), (σ = 1 ∨ σ = -1) ∧ col3 eigD i = fun k => σ * eigV k js)
+    (π : Fin 3 → Fin 3) (hπ : Function.Injective π) (ε : Fin 3 → ℝ) (i : Fin 3)
+    (hD : tr (permuteCols eigD i) = mmul (sperm π ε) (tr R)) (iso : Vec21) (nv : ℝ) :
+    (decompIn (voigtToTensor (rot6 R M0)) iso nv (permuteCols (sccs eigD eigV) i)).tric = 0 ∧
+    (decompIn (voigtToTensor (rot6 R M0)) iso nv (permuteCols (sccs eigD eigV) i)).mono = 0 := by
+  rw [sccs_aligned eigD eigV hV hal]
+  exact orthorhombic_candidate_frame M0 hS hpat R hR π hπ ε _ hD iso nv
+
 /-- the hexagonal axis reported for a candidate frame is its third column; it is a unit vector
 whenever the candidate frame has unit columns -/
 theorem hex_axis_unit (T : Ten4) (iso : Vec21) (nv : ℝ) (P : Mat3) (hP : IsOrtho P) :
